@@ -120,6 +120,32 @@ static void op_c14_trigger(Exec& x, const Json& op, int)
 	}
 	}
 	if (!applied) { x.probe("c14.trigger_not_applicable"); return; }
+	// ordinary pending changes on the disk that lost its known files: new files, or a copy (same name, size, stamp, bytes) of a
+	// file recorded on another disk, as left by cp -p / rsync -t or by two disks mounted in swapped directories
+	if ((trig == 0 || trig == 1) && op.num("mix")) {
+		std::string top = x.disk_top(op.num("d"));
+		int kind = (int)r.below(3);
+		if (kind == 0) {
+			int64_t s, ns; x.sb.next_stamp(s, ns);
+			x.sb.put_file(top + "/arrived_" + strf("%d", (int)r.below(100)), gen_bytes(r.next(), 1 + r.below(3000)), s, ns);
+			what += " + a new file on it";
+			x.probe("c14.emptied_disk_with_new_file");
+		} else {
+			std::vector<const CFile*> cand;
+			for (auto& f : pre_lc->c.files) {
+				const DiskCfg* d = x.sb.disk(pre_lc->c.maps[f.map_idx].name);
+				if (d && d->top != top && f.size > 0 && !x.sb.exists(top + "/" + f.sub)) cand.push_back(&f);
+			}
+			size_t n = kind == 1 ? 1 : cand.size(); // one copy, or everything the other disks hold (swapped mount points)
+			for (size_t i = 0; i < n && !cand.empty(); ++i) {
+				const CFile* f = kind == 1 ? cand[r.below(cand.size())] : cand[i];
+				const DiskCfg* d = x.sb.disk(pre_lc->c.maps[f->map_idx].name);
+				Bytes b;
+				if (!x.sb.get_file(d->top + "/" + f->sub, b) || b.size() != f->size) continue;
+				if (x.sb.put_file(top + "/" + f->sub, b, f->mtime_sec, f->mtime_nsec < 0 ? 0 : f->mtime_nsec)) { what += " + copy of " + d->top + "/" + f->sub; x.probe("c14.emptied_disk_with_cross_disk_copy"); }
+			}
+		}
+	}
 	// ordinary pending changes mixed in (on another disk)
 	if (op.num("mix")) {
 		int64_t s, ns; x.sb.next_stamp(s, ns);
